@@ -178,6 +178,7 @@ pub fn run_job(job: &Value, slot: u32, serial: u32, progress: &Progress) -> JobO
         let turns = turns.clone();
         let crash = crash.clone();
         let probes_on = trace_on && job["probes"].as_bool().unwrap_or(true);
+        let feed = if h == 0 { job["feed"].clone() } else { Value::Null };
         handles.push(
             std::thread::Builder::new()
                 .name(format!("host-{h}"))
@@ -191,18 +192,66 @@ pub fn run_job(job: &Value, slot: u32, serial: u32, progress: &Progress) -> JobO
                             turns: Some(turns),
                             sinks: vec![],
                             crash,
+                            feeds: vec![],
                         };
                         it.top(&prog);
                         let sinks = std::mem::take(&mut it.sinks);
-                        (env, sinks)
+                        let feeds = std::mem::take(&mut it.feeds);
+                        (env, sinks, feeds)
                     }));
-                    let (env, sinks) = match built {
+                    let (env, mut sinks, feeds) = match built {
                         Ok(x) => x,
                         Err(_) => return json!({"host": h, "build_panic": true, "sinks": []}),
                     };
+                    // streaming jobs: feed the channel sources on a schedule and watch the channel
+                    // sinks, noting every hand-over as an event (order, not wall clock, is judged)
+                    let mut side_threads = vec![];
+                    if let Some(feed) = feed.as_array().cloned() {
+                        let t0 = Instant::now();
+                        side_threads.push(std::thread::spawn(move || {
+                            let mut feeds = feeds;
+                            for step in feed {
+                                let at = Duration::from_millis(step["at_ms"].as_u64().unwrap_or(0));
+                                if let Some(rest) = at.checked_sub(t0.elapsed()) {
+                                    std::thread::sleep(rest);
+                                }
+                                if step["close"].as_bool().unwrap_or(false) {
+                                    Session::note(json!({"ev": "close"}));
+                                    feeds.clear();
+                                    continue;
+                                }
+                                let src = step["src"].as_str().unwrap_or("");
+                                for v in step["vals"].as_array().cloned().unwrap_or_default() {
+                                    let v = v.as_i64().unwrap();
+                                    if let Some((_, tx)) = feeds.iter().find(|(i, _)| i == src) {
+                                        Session::note(json!({"ev": "fed", "src": src, "v": v}));
+                                        let _ = tx.send(v);
+                                    }
+                                }
+                            }
+                        }));
+                        for (sid, _, hnd) in sinks.iter_mut() {
+                            if let crate::interp::SinkHandle::Chan(rx) = hnd {
+                                let (tx2, rx2) = flume::unbounded();
+                                let rx = std::mem::replace(rx, rx2);
+                                let sid = sid.clone();
+                                side_threads.push(std::thread::spawn(move || {
+                                    while let Ok(v) = rx.recv() {
+                                        Session::note(json!({"ev": "arrive", "sink": sid, "v": v}));
+                                        let _ = tx2.send(v);
+                                    }
+                                }));
+                            }
+                        }
+                    } else {
+                        drop(feeds);
+                    }
                     Session::note(json!({"ev": "exec_start", "host": h}));
                     let exec = catch_unwind(AssertUnwindSafe(move || env.execute_blocking()));
                     Session::note(json!({"ev": "exec_end", "host": h, "ok": exec.is_ok()}));
+                    for t in side_threads {
+                        let _ = t.join();
+                    }
                     let mut out = vec![];
                     for (sid, kind, hnd) in sinks {
                         let res = catch_unwind(AssertUnwindSafe(move || hnd.read()))
@@ -260,6 +309,7 @@ pub fn graph_case(case: &Value, slot: u32, serial: u32) -> Value {
                 turns: None,
                 sinks: vec![],
                 crash: None,
+                feeds: vec![],
             };
             it.top(&prog);
             drop(std::mem::take(&mut it.sinks));
